@@ -139,6 +139,12 @@ func (d *Device) handleABSEvent(ie *input.InputEvent) {
 	min := absInfo.Minimum
 	max := absInfo.Maximum
 
+	if min == 0 && max == 0 {
+		// the ranges of this axis could not be read when the device was discovered:
+		// a position cannot be placed in an unknown range (dividing by it gives Inf and NaN)
+		return
+	}
+
 	if min < 0 {
 		canBeNegative = true
 	}
